@@ -739,7 +739,8 @@ func (e *Engine) globalFacts(g *ssa.Global, name string, sort Sort) {
 	if pkg == nil {
 		// a library variable: sentinel errors are non-nil
 		if types.Identical(g.Type().(*types.Pointer).Elem(), types.Universe.Lookup("error").Type()) {
-			e.GAxiom("nonnil_"+name, fmt.Sprintf("(assert (> %s 0))", name), name)
+			e.GDecl("typeof", "(declare-fun typeof (Int) Int)")
+			e.GAxiom("nonnil_"+name, fmt.Sprintf("(assert (and (> %s 0) (= (typeof %s) (- 1))))", name, name), name)
 			e.sentinel(name)
 		}
 		return
@@ -785,11 +786,25 @@ func (e *Engine) globalFacts(g *ssa.Global, name string, sort Sort) {
 						e.GAxiom("init_"+name, fmt.Sprintf("(assert (= %s %s))", name, lit.S), name)
 						continue
 					}
+					// error variable initialised with a composite value: non-nil sentinel
+					if _, ok := vs.Values[i].(*ast.CompositeLit); ok && (types.Identical(obj.Type(), types.Universe.Lookup("error").Type()) || isErrorish(obj.Type())) {
+						e.GDecl("typeof", "(declare-fun typeof (Int) Int)")
+						e.GAxiom("nonnil_"+name, fmt.Sprintf("(assert (and (> %s 0) (= (typeof %s) (- 1))))", name, name), name)
+						e.sentinel(name)
+					}
+					// &T{...}: a distinct non-nil object
+					if ue, ok := vs.Values[i].(*ast.UnaryExpr); ok && ue.Op == token.AND {
+						if _, ok := ue.X.(*ast.CompositeLit); ok {
+							e.GAxiom("nonnil_"+name, fmt.Sprintf("(assert (> %s 0))", name), name)
+							e.sentinel(name)
+						}
+					}
 					// errors.New / fmt.Errorf initialisers: non-nil sentinel
 					if call, ok := vs.Values[i].(*ast.CallExpr); ok {
 						if types.Identical(obj.Type(), types.Universe.Lookup("error").Type()) || isErrorish(obj.Type()) {
 							_ = call
-							e.GAxiom("nonnil_"+name, fmt.Sprintf("(assert (> %s 0))", name), name)
+							e.GDecl("typeof", "(declare-fun typeof (Int) Int)")
+							e.GAxiom("nonnil_"+name, fmt.Sprintf("(assert (and (> %s 0) (= (typeof %s) (- 1))))", name, name), name)
 							e.sentinel(name)
 						}
 					}
